@@ -87,6 +87,42 @@ def is_inf(x) -> bool:
 
 
 # --------------------------------------------------------------------------------------
+# linearity test (UF applications are opaque atoms: EUF + LRA is cheap)
+
+_lin_cache = {}
+
+
+def is_linear(t):
+    k = t.get_id()
+    if k in _lin_cache:
+        return _lin_cache[k]
+    r = _is_linear(t)
+    if len(_lin_cache) > 200000:
+        _lin_cache.clear()
+    _lin_cache[k] = r
+    return r
+
+
+def _is_linear(t):
+    if not z3.is_app(t):
+        return False
+    kind = t.decl().kind()
+    ch = t.children()
+    if kind == z3.Z3_OP_MUL:
+        if sum(0 if z3.is_rational_value(c) else 1 for c in ch) > 1:
+            return False
+    elif kind == z3.Z3_OP_DIV:
+        if not z3.is_rational_value(ch[1]):
+            return False
+    elif kind in (z3.Z3_OP_POWER,):
+        return False
+    elif kind == z3.Z3_OP_UNINTERPRETED and ch:
+        # opaque atom, but its arguments must not hide nonlinear structure we rely on
+        return True
+    return all(is_linear(c) for c in ch)
+
+
+# --------------------------------------------------------------------------------------
 # engine
 
 
@@ -111,6 +147,11 @@ class Engine:
         self.max_decisions = max_decisions
         self.feas_solver = z3.Solver()
         self.feas_solver.set("timeout", timeout_ms)
+        self._nonlinear = []
+        self.full_feasibility = True
+        self.full_timeout_ms = 1500
+        self.full_rlimit = 3000000
+        self.known = {}
         self._feas_loaded = 0
         self._side_loaded = 0
         self.solver_time = 0.0
@@ -142,26 +183,47 @@ class Engine:
 
     # -- decisions ------------------------------------------------------------------------
     def _sync(self):
-        s = self.feas_solver
+        """Load new constraints: linear ones into the light solver, everything into the
+        list used by the full (bounded) feasibility check."""
         for c in self.side[self._side_loaded:]:
-            s.add(c)
+            if is_linear(c):
+                self.feas_solver.add(c)
+            else:
+                self._nonlinear.append(c)
         self._side_loaded = len(self.side)
         for c in self.pc[self._feas_loaded:]:
-            s.add(c)
+            if is_linear(c):
+                self.feas_solver.add(c)
+            else:
+                self._nonlinear.append(c)
         self._feas_loaded = len(self.pc)
 
     def _check(self, extra):
+        """Feasibility of pc + side + extra.  Sound over-approximation: `unsat` only when a
+        subset of the constraints is unsat; anything else counts as feasible."""
         self._sync()
         s = self.feas_solver
-        s.push()
-        for a in self.current_axioms():
-            s.add(a)
-        s.add(extra)
         t = time.time()
+        lin = is_linear(extra)
+        s.push()
+        if lin:
+            s.add(extra)
         r = str(s.check())
-        self.solver_time += time.time() - t
-        self.queries += 1
         s.pop()
+        self.queries += 1
+        if r != "unsat" and (self._nonlinear or not lin or self.axiom_hooks) and self.full_feasibility:
+            f = z3.Solver()
+            f.set("timeout", self.full_timeout_ms)
+            f.set("rlimit", self.full_rlimit)
+            f.add(self.side)
+            f.add(self.pc)
+            f.add(self.current_axioms())
+            f.add(extra)
+            r2 = str(f.check())
+            self.queries += 1
+            if r2 == "unsat":
+                r = "unsat"
+        self.solver_time += time.time() - t
         return r
 
     def current_axioms(self):
@@ -176,12 +238,18 @@ class Engine:
             return True
         if z3.is_false(cond):
             return False
+        if cond.sexpr() in self.known:
+            return self.known[cond.sexpr()]
         if self.pos < len(self.decisions):
             d = self.decisions[self.pos]
             self.pos += 1
             self.pc.append(cond if d else z3.Not(cond))
             self.pc_notes.append(note)
+            self._remember(cond, d)
             return d
+        key = cond.sexpr()
+        if key in self.known:
+            return self.known[key]
         if len(self.decisions) >= self.max_decisions:
             raise BoundHit(f"more than {self.max_decisions} decisions on one path")
         feas = []
@@ -198,7 +266,12 @@ class Engine:
             self.todo.append(len(self.decisions) - 1)
         self.pc.append(cond if d else z3.Not(cond))
         self.pc_notes.append(note)
+        self._remember(cond, d)
         return d
+
+    def _remember(self, cond, d):
+        self.known[cond.sexpr()] = d
+        self.known[z3.simplify(z3.Not(cond)).sexpr()] = not d
 
     def assume(self, cond):
         """Add an assumption; abort the path if it is infeasible."""
